@@ -242,7 +242,51 @@ def sweep(seed=0, n_random=40, budget_s=90, stop_after=5):
             if pr:
                 pr = [p.replace(root, "") for p in pr]
                 bad.append({"forms": forms, "inner": inner, "problems": pr[:3], "signature": "tree:" + json.dumps([forms, inner]), "root_cause": root_cause(forms, inner, pr)})
-    return {"cases": n, "bad": bad}
+    n_pth, bad_pth = pth_scenarios(seed)
+    return {"cases": n + n_pth, "bad": bad + bad_pth}
+
+
+def pth_scenarios(seed=0):
+    """.pth additions: two path configuration files naming directories that hold the same package (and one a package of its own); whichever order the
+    operating system lists the .pth files in, the search path order -- hence the package found -- is the one CPython's `site` gives (sorted by file name)."""
+    import site as _site
+    problems, n = [], 0
+    with tempfile.TemporaryDirectory() as root:
+        root = Path(root)
+        sitedir = root / "site"
+        sitedir.mkdir()
+        for nm in ("dirA", "dirB", "dirC"):
+            d = root / nm / "top"
+            d.mkdir(parents=True)
+            (d / "__init__.py").write_text(f"origin = {nm!r}\n")
+        (root / "dirC" / "only_c.py").write_text("x = 1\n")
+        (sitedir / "zz_first_listed.pth").write_text(str(root / "dirB") + "\n")
+        (sitedir / "aa.pth").write_text("# comment\n\n" + str(root / "dirA") + "\n" + str(root / "missing_dir") + "\n")
+        (sitedir / "mm.pth").write_text(str(root / "dirC") + "\n")
+        # CPython's answer: site.addsitedir on a scratch sys.path
+        saved = list(sys.path)
+        try:
+            sys.path[:] = []
+            _site.addsitedir(str(sitedir), set())
+            expected = [p for p in sys.path if p != str(sitedir)]
+        finally:
+            sys.path[:] = saved
+        seen = {}
+        for mode in ("asc", "desc", "shuffle"):
+            n += 1
+            with Order(mode, seed):
+                f = finder_mod.ModuleFinder([sitedir])
+                got = [str(p) for p in f.search_paths if str(p) != str(sitedir)]
+                try:
+                    found = str(f.find_package("top").path)
+                except BaseException as e:  # noqa: BLE001
+                    found = type(e).__name__
+            seen[mode] = (got, found)
+            if got != expected:
+                problems.append(f"[{mode}] .pth additions in the order {[x.replace(str(root), '') for x in got]}, CPython's site gives {[x.replace(str(root), '') for x in expected]}")
+        if len({json.dumps(v) for v in seen.values()}) > 1:
+            problems.append("the search paths added from .pth files depend on the directory listing order")
+    return n, [{"forms": ["pth"], "inner": [], "problems": problems[:3], "signature": "pth:" + problems[0][:80], "root_cause": []}] if problems else []
 
 
 def root_cause(forms, inner, problems):
